@@ -314,6 +314,31 @@ def b(v):
     return "true" if v else "false"
 
 
+SAMPLE_PLAN = [  # (stream, category, predicate on the area) -> at most one sample each
+    ("point", "one_pixel_band_negative", lambda a: a.crs == "merc"),
+    ("point", "eps_band", lambda a: a.crs == "laea"),
+    ("point", "on_border_exact", lambda a: a.crs == "longlat" and a.w == 16),
+    ("point", "nonfinite", lambda a: a.crs == "stere"),
+    ("point", "interior", lambda a: "flipped-y" in a.tag),
+    ("point", "negative_fractional_beyond", lambda a: a.tag.startswith("random")),
+    ("icq", "one_pixel_band_negative", lambda a: a.crs == "eqc"),
+    ("icq", "on_border_exact", lambda a: a.crs == "longlat"),
+    ("quick", "wrap_distance", lambda a: a.tag == "ql-small-100m"),
+    ("quick", "wrap_distance", lambda a: a.tag.startswith("ql-wide") or a.tag.startswith("ql-tall")),
+    ("quick", "one_pixel_band_positive", lambda a: a.tag == "ql-wide-65535"),
+]
+
+
+def pick_sample(ctx, stream, cat, a, payload):
+    """payload if this case is the first to match a still-open entry of SAMPLE_PLAN, else None"""
+    done = ctx.__dict__.setdefault("_c18_samples", set())
+    for k, (st, c, pred) in enumerate(SAMPLE_PLAN):
+        if k not in done and st == stream and c == cat and pred(a):
+            done.add(k)
+            return {"%s_%s_%d" % (stream, cat, k): payload}
+    return None
+
+
 def check_area_obs(ctx, a, ai, spec, obs, cases, agree):
     """Property oracle + Coq case text for one area's observation. cases: {kind: [coq tuple text]}"""
     an = "a%d" % ai
@@ -369,6 +394,12 @@ def check_area_obs(ctx, a, ai, spec, obs, cases, agree):
             continue
         ctx.case(("area_proj", ai, m["x"][i], m["y"][i]), nontrivial=category(a, x, y) != "interior")
         cases["area"].append("(%s, %s, %s, (%s, %d), (%s, %d))" % (an, fhex(x), fhex(y), b(m["cm"][i]), m["c"][i], b(m["rm"][i]), m["r"][i]))
+    for name, res in sorted(obs.get("area_alias", {}).items()):
+        ctx.count("alias/" + name)
+        if res != "same":
+            kind = "alias_exception" if res.startswith("error") else "alias_differs"
+            ctx.add_failure("C18.area_index.%s" % kind, "AreaDefinition.%s does not return what the index lookup it stands for returns on extent %s "
+                            "shape (%d, %d): %s" % (name, a.ext, a.h, a.w, res), {"area": dict(core, xy=spec.get("xy", [])[:8]), "module": "area_alias", "alias": name})
     for i, xh, yh, code in obs["area_scalar"]:
         x, y = uh(xh), uh(yh)
         cell = code_cell(code, a.w) if code >= 0 else "bad"
@@ -433,8 +464,11 @@ def check_area_obs(ctx, a, ai, spec, obs, cases, agree):
         ctx.count("crs:" + a.crs)
         nontrivial = cat != "interior"
         ctx.case(("pt", ai, obs["lons"][i], obs["lats"][i]), nontrivial=nontrivial,
-                 sample={"point_" + cat: {"crs": a.crs, "extent": a.ext, "shape": [a.h, a.w], "lonlat": [uh(obs["lons"][i]), uh(obs["lats"][i])],
-                                          "projected": [x0, y0], "cells": {mm: str(got[mm][2]) for mm in got}}})
+                 sample=pick_sample(ctx, "point", cat, a, {
+                     "crs": a.crs, "area": a.tag, "extent": a.ext, "shape": [a.h, a.w], "lonlat": [uh(obs["lons"][i]), uh(obs["lats"][i])],
+                     "projected_by_area": [x0, y0], "fractional_position": None if a.uv_of(x0, y0) is None else [float(t) for t in a.uv_of(x0, y0)],
+                     "cells": {mm: str(got[mm][2]) for mm in got},
+                     "ll2cr_col_row": [uh(obs["ll2cr"]["cols"][i]), uh(obs["ll2cr"]["rows"][i])]}))
         uv = a.uv_of(x0, y0)
         if uv is None:
             continue
@@ -472,8 +506,10 @@ def check_area_obs(ctx, a, ai, spec, obs, cases, agree):
                 cat = category(a, x, y)
                 ctx.count("icq/" + cat)
                 ctx.case(("icq", ai, xh, yh), nontrivial=cat != "interior",
-                         sample={"icq_" + cat: {"crs": a.crs, "extent": a.ext, "shape": [a.h, a.w], "target": spec["target"], "pixel": j,
-                                                "projected": [x, y], "cell": str(cell)}})
+                         sample=pick_sample(ctx, "icq", cat, a, {
+                             "entry": "ImageContainerQuick.resample", "crs": a.crs, "extent": a.ext, "shape": [a.h, a.w],
+                             "target_extent": [uh(e) for e in spec["target"]["extent"]], "target_shape": [spec["target"]["h"], spec["target"]["w"]],
+                             "segments": spec.get("segments"), "pixel": j, "projected": [x, y], "sampled_source_cell": str(cell)}))
                 if kind:
                     ctx.add_failure("C18.grid.%s" % kind, "ImageContainerQuick.resample: target pixel %d at projected (%r, %r) samples source cell %s of extent %s "
                                     "shape (%d, %d): %s" % (j, x, y, cell, a.ext, a.h, a.w, kind),
@@ -502,10 +538,11 @@ def check_quick_obs(ctx, a, ai, spec, obs, cases):
             cat = ("wrap_distance" if far else category(a, x, y))
             ctx.count("quick/%s/%s" % (m["cdtype"], cat))
             ctx.case(("ql", ai, xh, yh), nontrivial=cat != "interior",
-                     sample={"quick_" + cat: {"crs": a.crs, "source_extent": a.ext, "source_shape": [a.h, a.w], "target_extent": t.ext,
+                     sample=pick_sample(ctx, "quick", cat, a, {"entry": "generate_quick_linesample_arrays + get_array_from_linesample",
+                                              "crs": a.crs, "source": a.tag, "source_extent": a.ext, "source_shape": [a.h, a.w], "target_extent": t.ext,
                                               "target_shape": [t.h, t.w], "pixel": j, "projected": [x, y],
                                               "fractional": None if uv is None else [float(uv[0]), float(uv[1])],
-                                              "row_col": [row, col], "dtype": m["cdtype"], "cell": str(cell)}})
+                                              "row_col": [row, col], "dtype": m["cdtype"], "cell": str(cell)}))
             if kind:
                 ctx.add_failure("C18.quick_linesample.%s" % kind,
                                 "generate_quick_linesample_arrays + get_array_from_linesample: target pixel %d at projected (%r, %r), fractional source "
